@@ -782,8 +782,11 @@ func resumeReal(n int) []obsI {
 	out := make([]obsI, n)
 	for k := range out {
 		if n == 2 && k == 1 {
-			out[k] = ro.Pipe1(ro.Just(60+k), ro.EndWith[int]()) // placeholder replaced below
-			out[k] = ro.NewObservable(func(d ro.Observer[int]) ro.Teardown { d.Next(61); d.Error(errOf(9)); return nil })
+			out[k] = ro.NewObservableWithContext(func(c ctxT, d ro.Observer[int]) ro.Teardown {
+				d.NextWithContext(c, 61)
+				d.ErrorWithContext(c, errOf(9))
+				return nil
+			})
 			continue
 		}
 		out[k] = ro.Just(60 + k)
